@@ -104,6 +104,27 @@ inline std::string crash_mode(const std::string& err, int status)
 	return kind + (where.empty() ? "" : " in " + where);
 }
 
+// A fork() of a process that has a second thread can leave the child with a lock (the sanitizer's allocator mutex) that nobody
+// will ever release: the child then sleeps for good and looks like a hanging case.  fix8's global logger starts a thread
+// when it is first touched, so it must only be touched in the children (child_init), and every fork site checks that the
+// parent is still single-threaded (exit 2 = no verdict, never a wrong one).
+inline int thread_count()
+{
+	int n = 0; FILE *f = fopen("/proc/self/status", "r"); if (!f) return 1;
+	char l[256]; while (fgets(l, sizeof l, f)) if (sscanf(l, "Threads: %d", &n) == 1) break;
+	fclose(f); return n ? n : 1;
+}
+inline void assert_single_threaded(const char *where)
+{
+	const int n = thread_count();
+	if (n != 1) { fprintf(stderr, "forkbatch: %d threads in the forking process at %s: no verdict\n", n, where); fflush(stderr); _exit(2); }
+}
+inline void child_init()
+{
+	static bool done = false;
+	if (!done) { done = true; FIX8::GlobalLogger::set_levels(FIX8::Logger::Levels(FIX8::Logger::None)); }
+}
+
 inline void warm_symbolizer()
 {
 #if defined(__SANITIZE_ADDRESS__)
@@ -117,9 +138,10 @@ template<class F> inline Child run_forked(F fn, int timeout_ms = 30000)
 {
 	Child c; int pf[2]; if (pipe(pf)) { c.text = "pipe failed"; c.status = -1; return c; }
 	fflush(stderr);	// stdout is left alone: the child never writes to it and leaves with _exit
+	assert_single_threaded("run_forked");
 	pid_t pid = fork();
 	if (pid == 0) {
-		close(pf[0]); dup2(pf[1], 2);
+		close(pf[0]); dup2(pf[1], 2); child_init();
 		std::string r = fn();
 		r = "\nRESULT:" + r + "\n";
 		(void)!write(pf[1], r.data(), r.size());
@@ -182,6 +204,7 @@ struct Batcher {
 	void on_case(unsigned long long id, const char *d)
 	{
 		if (nofork) {	// developer aid (profiling): everything in this process, no protection
+			child_init();
 			if ((ran & 0xff) == 0 && late()) return;
 			++ran; ++wd_seq; exec(d); return;
 		}
@@ -194,8 +217,10 @@ struct Batcher {
 					(void)!ftruncate(efd, 0); lseek(efd, 0, SEEK_SET);
 					if (R.cur) R.cur[0] = 0;
 					if (confirm < 0) shm->flushed = resume_after;
+					assert_single_threaded("batch");
 					pid_t pid = fork();
 					if (pid == 0) {
+						child_init();
 						is_child = true; ran = 0; dup2(efd, 2); wd_limit = confirm >= 0 ? 20 : 4; start_watchdog(false);
 						setvbuf(stdout, nullptr, _IOFBF, 1 << 20);
 						R.evaluations = R.nontrivial = R.violations = 0; R.outcomes.clear();
